@@ -117,8 +117,9 @@ func (c *lockCtx) callEvents(x *ast.CallExpr, out *[]lev) {
 			*out = append(*out, lev{kind: "param"})
 			return
 		}
-		if f.Name == "send" || f.Name == "recv" { // a frame written to / read from the connection
-			*out = append(*out, lev{kind: "access", a: "wire." + f.Name, b: f.Name + "Mu"})
+		if f.Name == "send" || f.Name == "recv" || f.Name == "recvLimit" { // a frame written to / read from the connection
+			nm := strings.TrimSuffix(f.Name, "Limit")
+			*out = append(*out, lev{kind: "access", a: "wire." + nm, b: nm + "Mu"})
 			return
 		}
 		if c.known[f.Name] {
@@ -146,8 +147,39 @@ func (c *lockCtx) blockEvents(b *ast.BlockStmt, out *[]lev) {
 	}
 }
 
+// lockCall returns (mutex source text, method) if the statement is a bare X.Lock() / X.RLock() /
+// X.Unlock() / X.RUnlock() call (possibly deferred).
+func lockCall(call *ast.CallExpr) (string, string) {
+	if sel, ok := call.Fun.(*ast.SelectorExpr); ok {
+		switch sel.Sel.Name {
+		case "Lock", "RLock", "Unlock", "RUnlock":
+			return norm(src(sel.X)), sel.Sel.Name
+		}
+	}
+	return "", ""
+}
+
 func (c *lockCtx) stmts(list []ast.Stmt, out *[]lev, defers *[][]lev) {
-	for _, st := range list {
+	for i, st := range list {
+		// the Go idiom `X.Lock(); defer X.Unlock()`: the release also happens while a panic unwinds
+		if es, ok := st.(*ast.ExprStmt); ok && i+1 < len(list) {
+			if call, ok := es.X.(*ast.CallExpr); ok {
+				if mu, meth := lockCall(call); meth == "Lock" || meth == "RLock" {
+					if ds, ok := list[i+1].(*ast.DeferStmt); ok {
+						if mu2, meth2 := lockCall(ds.Call); mu2 == mu && (meth2 == "Unlock" || meth2 == "RUnlock") {
+							n := len(*out)
+							c.exprEvents(es.X, out)
+							for k := n; k < len(*out); k++ {
+								if (*out)[k].kind == "lock" || (*out)[k].kind == "rlock" {
+									(*out)[k].b = "defer"
+								}
+							}
+							continue
+						}
+					}
+				}
+			}
+		}
 		switch s := st.(type) {
 		case *ast.DeferStmt:
 			var d []lev
